@@ -1,6 +1,8 @@
 package c10
 
 import (
+	"bytes"
+	"crypto"
 	"crypto/ecdsa"
 	"crypto/elliptic"
 	"crypto/sha256"
@@ -10,13 +12,17 @@ import (
 	"os"
 	"sort"
 	"strconv"
+	"strings"
 	"testing"
 	"time"
 
 	"github.com/lestrrat-go/jwx/v2/jwk"
 	"github.com/mr-tron/base58"
 	"github.com/nuts-foundation/go-did/did"
+	"github.com/nuts-foundation/nuts-node/audit"
+	nutsCrypto "github.com/nuts-foundation/nuts-node/crypto"
 	"github.com/nuts-foundation/nuts-node/crypto/hash"
+	"github.com/nuts-foundation/nuts-node/network/dag"
 	"github.com/nuts-foundation/nuts-node/vdr/didnuts/didstore"
 )
 
@@ -32,6 +38,9 @@ type docSpec struct {
 	Ctrl  []int     `json:"ctrl,omitempty"` // controller DID indices, in the listed order
 	Svc   []svcSpec `json:"svc,omitempty"`
 	Deact bool      `json:"deact,omitempty"` // no controller, no keys
+	// Bytes selects another serialisation of the SAME document as transaction payload (0 compact with sorted members,
+	// 1 indented, 2 trailing newline, 3 members in reverse order): equal documents, different payload hashes
+	Bytes int `json:"bytes,omitempty"`
 }
 
 type evSpec struct {
@@ -40,14 +49,33 @@ type evSpec struct {
 	Prevs   []int   `json:"prevs,omitempty"` // indices of earlier events of the set (same or other DID)
 	Bump    int     `json:"bump,omitempty"`  // > 0: one more (external) prev whose clock lifts this event by Bump
 	TimeOff int     `json:"t"`               // signing time = t0 + TimeOff seconds
-	Rep     string  `json:"rep,omitempty"`   // representation of that instant as a Go time.Time: "" (UTC, as time.Date builds it) | unix-local | mono | zone | json-zone
-	Rank    int     `json:"rank"`            // first byte of the transaction reference (tie-break of the store's order)
+	Nanos   int     `json:"ns,omitempty"`    // + Nanos nanoseconds (a sub-second part; the DAG itself carries whole seconds: see rep "dag")
+	// Rep: representation of that instant as a Go time.Time handed to Store.Add:
+	//   ""  UTC without monotonic reading (time.Date(..., time.UTC), x.UTC(); also what a JSON round trip of a UTC time gives)
+	//   unix-local  time.Unix(..): the process's Local zone (pointer to the local zone), no monotonic reading
+	//   mono        derived from time.Now(): monotonic reading + Local
+	//   zone        x.In(time.FixedZone(.., +3600)): pointer to a fixed zone
+	//   zone0       x.In(time.FixedZone("UTC", 0)): a non-nil zone pointer with offset zero (what time.Unix gives when the local zone is UTC)
+	//   json-zone   a non-UTC time after a JSON round trip (a fresh fixed-zone pointer per decode)
+	//   json-local  time.Unix(..) after a JSON round trip (Local pointer or nil, depending on the process zone)
+	//   dag         the event is built the way the node builds it: a REAL network transaction (dag.NewTransaction, signed with the
+	//               caller's time.Now()-like signing time incl. its sub-second part, parsed back by dag.ParseTransaction) and the
+	//               didstore.Transaction is filled from its accessors as the ambassador does (the reference is the real one: it is
+	//               signed again until its first byte lies within +-12 of Rank, so the tie-break direction of the set is kept)
+	Rep  string `json:"rep,omitempty"`
+	Rank int    `json:"rank"` // first byte of the transaction reference (tie-break of the store's order)
 }
 
 type scenario struct {
 	Name   string   `json:"name"`
 	Events []evSpec `json:"events"`
 	Dup    []int    `json:"dup,omitempty"` // events delivered a second time
+	// DupRep[k]: the representation of the signing time in the SECOND delivery of event Dup[k] ("same" or absent: the very
+	// same value as in the first delivery; "utc" = plain): one transaction, handed over twice in two forms
+	DupRep []string `json:"dup_rep,omitempty"`
+	// Restart: every order of the set is executed a second time with a process restart between all deliveries (bbolt file
+	// closed and re-opened, new store instance): everything a delivery meets then came from the shelves
+	Restart bool `json:"restart,omitempty"`
 }
 
 // ------------------------------------------------------------------ fixed material
@@ -142,23 +170,55 @@ func buildPayload(didIdx int, d docSpec) []byte {
 	if err != nil {
 		panic(err)
 	}
+	switch d.Bytes {
+	case 0:
+	case 1:
+		var buf bytes.Buffer
+		_ = json.Indent(&buf, b, "", "  ")
+		b = buf.Bytes()
+	case 2:
+		b = append(b, '\n')
+	case 3:
+		keys := make([]string, 0, len(doc))
+		for k := range doc {
+			keys = append(keys, k)
+		}
+		sort.Sort(sort.Reverse(sort.StringSlice(keys)))
+		var parts []string
+		for _, k := range keys {
+			kb, _ := json.Marshal(k)
+			vb, _ := json.Marshal(doc[k])
+			parts = append(parts, string(kb)+": "+string(vb))
+		}
+		b = []byte("{" + strings.Join(parts, ", ") + "}")
+	default:
+		panic("serialisation variant")
+	}
 	return b
 }
+
+// monoBase: every "mono" time of the process is derived from ONE reading of the clocks, so that two such values of the
+// same instant also agree in their monotonic readings.
+var monoBase = time.Now()
 
 // represent returns the SAME instant in another representation of time.Time (the store must order and compare
 // signing times by instant: a stored event's time went through JSON, an arriving one's did not).
 func represent(tm time.Time, rep string) time.Time {
 	var out time.Time
 	switch rep {
-	case "":
+	case "", "utc":
 		return tm
 	case "unix-local": // what time.Unix returns: the process's local zone (a non-nil location even when that zone is UTC)
 		out = time.Unix(tm.Unix(), int64(tm.Nanosecond()))
 	case "mono": // derived from time.Now(): carries a monotonic clock reading
-		now := time.Now()
-		out = now.Add(tm.Sub(now))
+		out = monoBase.Add(tm.Sub(monoBase))
 	case "zone":
 		out = tm.In(time.FixedZone("verif+01", 3600))
+	case "zone0":
+		out = tm.In(time.FixedZone("UTC", 0))
+	case "json-local":
+		b, _ := json.Marshal(time.Unix(tm.Unix(), int64(tm.Nanosecond())))
+		_ = json.Unmarshal(b, &out)
 	case "json-zone": // a non-UTC time after a JSON round trip
 		b, _ := json.Marshal(tm.In(time.FixedZone("verif-05", -5*3600)))
 		_ = json.Unmarshal(b, &out)
@@ -202,6 +262,7 @@ type compiled struct {
 	dids     []did.DID
 	events   []cEvent
 	arrivals []int       // arrival item -> event index (events, then duplicates)
+	arrTx    []didstore.Transaction // arrival item -> the transaction value handed to Store.Add
 	times    []time.Time // every signing time, one second before the first and one after the last
 }
 
@@ -209,6 +270,46 @@ func refOf(name string, i int, rank int) hash.SHA256Hash {
 	h := sha256.Sum256([]byte(fmt.Sprintf("c10-ref|%d", i)))
 	h[0] = byte(rank)
 	return hash.SHA256Hash(h)
+}
+
+// dagTx builds a real network transaction (as dag.CreateSignedTestTransaction does, but for a given payload hash, clock
+// and prevs) and returns it as parsed back from its JWS. The signature is randomised, so is the reference: the
+// transaction is signed again until the first byte of its reference lies within +-12 of rank (sets with such events
+// use ranks that are 36 apart), which fixes the tie-break direction among the events of the set.
+var dagSigner dag.TransactionSigner
+
+func dagTx(payloadHash hash.SHA256Hash, prevs []hash.SHA256Hash, clock uint32, signingTime time.Time, rank int) dag.Transaction {
+	if dagSigner == nil {
+		key, err := nutsCrypto.GenerateJWK()
+		if err != nil || key == nil {
+			panic(fmt.Sprintf("harness: key generation: %v", err))
+		}
+		_ = key.Set(jwk.KeyIDKey, "c10")
+		pubJWK, err := key.PublicKey()
+		if err != nil {
+			panic(err)
+		}
+		var raw any
+		if err := pubJWK.Raw(&raw); err != nil {
+			panic(err)
+		}
+		dagSigner = dag.NewTransactionSigner(nutsCrypto.MemoryJWTSigner{Key: key}, "c10", raw.(crypto.PublicKey))
+	}
+	unsigned, err := dag.NewTransaction(payloadHash, "application/did+json", prevs, nil, clock)
+	if err != nil {
+		panic(fmt.Sprintf("harness: dag.NewTransaction: %v", err))
+	}
+	for try := 0; try < 20000; try++ {
+		tx, err := dagSigner.Sign(audit.TestContext(), unsigned, signingTime)
+		if err != nil {
+			panic(fmt.Sprintf("harness: signing a transaction: %v", err))
+		}
+		ref := tx.Ref()
+		if d := int(ref[0]) - rank; d >= -12 && d <= 12 {
+			return tx
+		}
+	}
+	panic("harness: no transaction reference in the wanted range")
 }
 
 func compile(t *testing.T, sc scenario) *compiled {
@@ -235,12 +336,25 @@ func compile(t *testing.T, sc scenario) *compiled {
 			prevs = append(prevs, hash.SHA256Hash(x))
 			clock += uint32(e.Bump)
 		}
-		ce.tx = didstore.Transaction{
-			Ref:         refOf(sc.Name, i, e.Rank),
-			PayloadHash: hash.SHA256Sum(ce.payload),
-			SigningTime: represent(t0.Add(time.Duration(e.TimeOff)*time.Second), e.Rep),
-			Clock:       clock,
-			Previous:    prevs,
+		instant := t0.Add(time.Duration(e.TimeOff)*time.Second + time.Duration(e.Nanos))
+		if e.Rep == "dag" {
+			// the way the node builds the event: a real signed network transaction, parsed, then the ambassador's field copy
+			tx := dagTx(hash.SHA256Sum(ce.payload), prevs, clock, represent(instant, "mono"), e.Rank)
+			ce.tx = didstore.Transaction{
+				Clock:       tx.Clock(),
+				PayloadHash: tx.PayloadHash(),
+				Previous:    tx.Previous(),
+				Ref:         tx.Ref(),
+				SigningTime: tx.SigningTime(),
+			}
+		} else {
+			ce.tx = didstore.Transaction{
+				Ref:         refOf(sc.Name, i, e.Rank),
+				PayloadHash: hash.SHA256Sum(ce.payload),
+				SigningTime: represent(instant, e.Rep),
+				Clock:       clock,
+				Previous:    prevs,
+			}
 		}
 		c.events = append(c.events, ce)
 	}
@@ -249,10 +363,23 @@ func compile(t *testing.T, sc scenario) *compiled {
 		c.arrivals = append(c.arrivals, i)
 	}
 	c.arrivals = append(c.arrivals, sc.Dup...)
+	for _, ei := range c.arrivals {
+		c.arrTx = append(c.arrTx, c.events[ei].tx)
+	}
+	for k, rep := range sc.DupRep {
+		if k >= len(sc.Dup) || rep == "same" || rep == "" {
+			continue
+		}
+		if rep == "dag" || sc.Events[sc.Dup[k]].Rep == "dag" {
+			t.Fatalf("harness: a second delivery of %s cannot be signed again (it would be another transaction)", sc.Name)
+		}
+		e := sc.Events[sc.Dup[k]]
+		c.arrTx[len(c.events)+k].SigningTime = represent(t0.Add(time.Duration(e.TimeOff)*time.Second+time.Duration(e.Nanos)), rep)
+	}
 	seen := map[int64]bool{}
 	for _, e := range c.events {
-		if !seen[e.tx.SigningTime.Unix()] {
-			seen[e.tx.SigningTime.Unix()] = true
+		if !seen[e.tx.SigningTime.UnixNano()] {
+			seen[e.tx.SigningTime.UnixNano()] = true
 			c.times = append(c.times, e.tx.SigningTime)
 		}
 	}
@@ -480,6 +607,44 @@ func palette(name string, i int) docSpec {
 	panic("palette " + name)
 }
 
+// spreadRanks gives the events of a set references whose first bytes are 36 apart (room for the real references of
+// events built from network transactions), in the stated tie-break direction.
+func spreadRanks(evs []evSpec, dir string) []evSpec {
+	out := append([]evSpec{}, evs...)
+	for i := range out {
+		if dir == "asc" {
+			out[i].Rank = 30 + 36*i
+		} else {
+			out[i].Rank = 220 - 36*i
+		}
+	}
+	return out
+}
+
+// tiedEvents: indices of the events that share DID, Lamport clock and signing second with another event of the set
+// (their relative position in the store's order is decided by the last criterion, the transaction reference).
+func tiedEvents(evs []evSpec) []int {
+	clocks := make([]int, len(evs))
+	for i, e := range evs {
+		for _, p := range e.Prevs {
+			if clocks[p]+1 > clocks[i] {
+				clocks[i] = clocks[p] + 1
+			}
+		}
+		clocks[i] += e.Bump
+	}
+	var out []int
+	for i, e := range evs {
+		for j, f := range evs {
+			if i != j && e.DID == f.DID && clocks[i] == clocks[j] && e.TimeOff == f.TimeOff {
+				out = append(out, i)
+				break
+			}
+		}
+	}
+	return out
+}
+
 type dims struct {
 	timing string // inc | eq | dec
 	rank   string // asc | desc
@@ -576,6 +741,239 @@ func generate(thorough bool) []scenario {
 				}
 				d := dims{"inc", "asc", 0, "mixed", 0}
 				add(fmt.Sprintf("R%d%s/%s/rep-%s", n, shapeName(sh), d, rep), withRep(oneDID(0, 0, sh, d), rep))
+			}
+		}
+	}
+	// ---- representation of equal values as a dimension of the event alphabet (blocks T, U, S, W) ----
+	//
+	// block T: ties x representation. Every shape of n = 3, 4 events (thorough also bump positions that tie an event with a
+	// non-sibling) and chosen shapes of 5 events (3 branches + an update that references all / one of them, fork + resolution +
+	// update, two parallel chains), all signing times EQUAL; the events that share (DID, clock, instant) with another event are
+	// the tied ones. For <= 3 tied events EVERY assignment of a representation to every tied event (full product), otherwise
+	// (and for 5 events in the quick tier) every single tied event in every representation while the others are plain UTC;
+	// both tie-break directions. n = 3 and the 3-way fork are also run with a restart between all deliveries.
+	alphabet := []string{"", "unix-local", "mono", "zone"}
+	pairAlphabet := []string{"", "unix-local", "mono", "zone", "zone0", "dag"}
+	if thorough {
+		alphabet = []string{"", "unix-local", "mono", "zone", "zone0", "json-zone", "json-local", "dag"}
+		pairAlphabet = alphabet
+	}
+	tieBlock := func(prefix string, evsOf func(rk string) []evSpec, reps []string, product bool, rks []string, restart bool) {
+		for _, rk := range rks {
+			base := spreadRanks(evsOf(rk), rk)
+			tied := tiedEvents(base)
+			if len(tied) == 0 {
+				continue
+			}
+			emit := func(assign []string) {
+				evs := append([]evSpec{}, base...)
+				label := ""
+				for k, ei := range tied {
+					evs[ei].Rep = assign[k]
+					label += "," + strconv.Itoa(ei) + ":" + assign[k]
+				}
+				out = append(out, scenario{Name: fmt.Sprintf("%s/%s/rep[%s]", prefix, rk, label[1:]), Events: evs, Restart: restart})
+			}
+			if product && len(tied) <= 3 {
+				idx := make([]int, len(tied))
+				for {
+					assign := make([]string, len(tied))
+					for k := range tied {
+						assign[k] = reps[idx[k]]
+					}
+					emit(assign)
+					k := 0
+					for ; k < len(idx); k++ {
+						idx[k]++
+						if idx[k] < len(reps) {
+							break
+						}
+						idx[k] = 0
+					}
+					if k == len(idx) {
+						break
+					}
+				}
+				continue
+			}
+			for k := range tied {
+				for _, rp := range reps {
+					if rp == "" {
+						continue
+					}
+					assign := make([]string, len(tied))
+					assign[k] = rp
+					emit(assign)
+				}
+			}
+		}
+	}
+	for n := 3; n <= 4; n++ {
+		for _, sh := range shapes(n, n) {
+			sh := sh
+			reps := alphabet
+			if n == 3 {
+				reps = pairAlphabet
+			}
+			d0 := dims{"eq", "asc", 0, "mixed", 0}
+			evsOf := func(rk string) []evSpec { d := d0; d.rank = rk; return oneDID(0, 0, sh, d) }
+			restart := thorough || n == 3 || shapeName(sh) == "[0][0][0]"
+			if !thorough && n == 4 && len(tiedEvents(evsOf("asc"))) == 2 {
+				// quick tier, 4 events of which 2 are tied: the full product in one tie-break direction, {UTC, monotonic} in the other
+				tieBlock(fmt.Sprintf("T%d%s/mixed", n, shapeName(sh)), evsOf, reps, true, []string{"asc"}, restart)
+				tieBlock(fmt.Sprintf("T%d%s/mixed", n, shapeName(sh)), evsOf, []string{"", "mono"}, true, []string{"desc"}, restart)
+			} else {
+				tieBlock(fmt.Sprintf("T%d%s/mixed", n, shapeName(sh)), evsOf, reps, true, ranks, restart)
+			}
+			if thorough {
+				// a bumped event ties with an event one level further from the creation
+				for bump := 1; bump < n; bump++ {
+					d0 := dims{"eq", "asc", bump, "svc-sparse", 0}
+					tieBlock(fmt.Sprintf("T%d%s/bump%d", n, shapeName(sh), bump), func(rk string) []evSpec { d := d0; d.rank = rk; return oneDID(0, 0, sh, d) },
+						[]string{"", "unix-local", "mono", "zone"}, true, ranks, false)
+				}
+			}
+		}
+	}
+	fiveTies := [][][]int{
+		{nil, {0}, {0}, {0}, {1, 2, 3}}, // three branches, then an update that references all of them
+		{nil, {0}, {0}, {0}, {1}},       // three branches, an update on one of them
+		{nil, {0}, {0}, {1, 2}, {3}},    // fork, resolution, update
+		{nil, {0}, {0}, {1}, {2}},       // two parallel chains: ties at two clocks
+		{nil, {0}, {0}, {1}, {2, 3}},    // fork, update on one branch, resolution
+	}
+	for _, sh := range fiveTies {
+		sh := sh
+		d0 := dims{"eq", "asc", 0, "mixed", 0}
+		evsOf := func(rk string) []evSpec { d := d0; d.rank = rk; return oneDID(0, 0, sh, d) }
+		if thorough {
+			tieBlock("T5"+shapeName(sh), evsOf, []string{"", "unix-local", "mono", "zone"}, true, ranks, false)
+			tieBlock("T5s"+shapeName(sh), evsOf, alphabet, false, ranks, false)
+		} else {
+			tieBlock("T5s"+shapeName(sh), evsOf, []string{"", "mono", "unix-local"}, false, []string{"desc"}, false)
+		}
+	}
+	// block U: two DIDs on one store, ties in one / in both of them (a fork per DID): the product over the tied events of the
+	// first DID while the second DID's events are monotonic-clock times, and (thorough) forks in both DIDs
+	{
+		fork, one := [][]int{nil, {0}, {0}}, [][]int{nil, {0}}
+		for _, rk := range ranks {
+			rk := rk
+			reps := []string{"", "unix-local", "mono", "zone"}
+			if rk == "desc" && !thorough {
+				reps = []string{"", "mono"}
+			}
+			tieBlock("U3+2", func(string) []evSpec {
+				d := dims{"eq", rk, 0, "mixed", 0}
+				evs := append(oneDID(0, 0, fork, d), oneDID(1, 3, one, d)...)
+				evs[3].Rep, evs[4].Rep = "mono", "unix-local"
+				return evs
+			}, reps, true, []string{rk}, false)
+		}
+		if thorough {
+			for _, rk := range ranks {
+				rk := rk
+				tieBlock("U3+3", func(string) []evSpec {
+					d := dims{"eq", rk, 0, "mixed", 0}
+					return append(oneDID(0, 0, fork, d), oneDID(1, 3, fork, d)...)
+				}, []string{"", "unix-local", "mono", "zone"}, false, []string{rk}, false)
+			}
+		}
+	}
+	// block S: clock ties whose signing times differ only BELOW one second (increasing / decreasing against the tie-break), handed
+	// to the store as they are (distinct instants with nanoseconds), all through the DAG (which carries whole seconds: equal
+	// instants again), and mixed (every second event through the DAG)
+	for n := 3; n <= 4; n++ {
+		for _, sh := range shapes(n, n) {
+			if len(tiedEvents(oneDID(0, 0, sh, dims{"eq", "asc", 0, "mixed", 0}))) == 0 {
+				continue
+			}
+			for _, sub := range []string{"subinc", "subdec"} {
+				for _, rk := range ranks {
+					if n == 4 && rk == "desc" && !thorough {
+						continue
+					}
+					for _, how := range []string{"raw", "raw-mono", "dag", "dag-mixed"} {
+						evs := spreadRanks(oneDID(0, 0, sh, dims{"eq", rk, 0, "mixed", 0}), rk)
+						for i := range evs {
+							evs[i].Nanos = (i + 1) * 1000000
+							if sub == "subdec" {
+								evs[i].Nanos = (n - i) * 1000000
+							}
+							switch {
+							case how == "raw-mono":
+								evs[i].Rep = "mono"
+							case how == "dag", how == "dag-mixed" && i%2 == 1:
+								evs[i].Rep = "dag"
+							case how == "dag-mixed":
+								evs[i].Rep = "unix-local"
+							}
+						}
+						out = append(out, scenario{Name: fmt.Sprintf("S%d%s/%s/%s/%s", n, shapeName(sh), sub, rk, how), Events: evs})
+					}
+				}
+			}
+		}
+	}
+	// block W: the SAME document in every event, serialised differently per event (indentation, trailing newline, member
+	// order): equal documents, distinct payload hashes and transactions
+	for n := 2; n <= 4; n++ {
+		for _, sh := range shapes(n, n) {
+			for _, d := range []dims{{"eq", "desc", 0, "same", 0}, {"inc", "asc", 0, "same", 0}} {
+				evs := oneDID(0, 0, sh, d)
+				for i := range evs {
+					evs[i].Doc.Bytes = (i + 1) % 4
+				}
+				add(fmt.Sprintf("W%d%s/%s/bytes", n, shapeName(sh), d), evs)
+			}
+		}
+	}
+	// block V: one transaction delivered twice in two representations of its signing time (first delivery plain or monotonic,
+	// second delivery in every other representation), every choice of the duplicated event, n = 2, 3 (thorough: also the 3-way fork)
+	for n := 2; n <= 4; n++ {
+		for _, sh := range shapes(n, n) {
+			if n == 4 && (!thorough || shapeName(sh) != "[0][0][0]") {
+				continue
+			}
+			for dup := 0; dup < n; dup++ {
+				for _, first := range []string{"", "mono"} {
+					for _, second := range []string{"utc", "mono", "unix-local", "zone"} {
+						if second == first || (first == "" && second == "utc") {
+							continue
+						}
+						evs := spreadRanks(oneDID(0, 0, sh, dims{"eq", "desc", 0, "mixed", 0}), "desc")
+						for i := range evs {
+							evs[i].Rep = first
+						}
+						out = append(out, scenario{Name: fmt.Sprintf("V%d%s/dup%d/%s-then-%s", n, shapeName(sh), dup, first, second), Events: evs,
+							Dup: []int{dup}, DupRep: []string{second}})
+					}
+				}
+			}
+		}
+	}
+	// block P: equal SETS of prevs listed in another order (every shape of 3, 4 events that has an event with several prevs,
+	// the prevs listed in descending order)
+	for n := 3; n <= 4; n++ {
+		for _, sh := range shapes(n, n) {
+			multi := false
+			for _, p := range sh {
+				multi = multi || len(p) > 1
+			}
+			if !multi {
+				continue
+			}
+			for _, rk := range ranks {
+				if rk == "asc" && !thorough {
+					continue
+				}
+				evs := oneDID(0, 0, sh, dims{"eq", rk, 0, "mixed", 0})
+				for i := range evs {
+					rev := append([]int{}, evs[i].Prevs...)
+					sort.Sort(sort.Reverse(sort.IntSlice(rev)))
+					evs[i].Prevs = rev
+				}
+				add(fmt.Sprintf("P%d%s/eq/%s/prevs-descending", n, shapeName(sh), rk), evs)
 			}
 		}
 	}
